@@ -95,7 +95,7 @@ def main(argv=None):
                   open(os.path.join(common.BUILD, f"last_{prop}.json"), "w"), indent=0)
     except Exception:
         pass
-    if not args.only:
+    if not args.only and not os.environ.get("PDPVERIF_NO_EVIDENCE"):
         write_evidence(prop, args.tier, seed, mod, obs, results, wall, shims.ACTIVE, known_hits)
     print(f"{prop} {args.tier}: {len(obs)} obligations, {n_conf} confirmed, {len(viol)} violated, {len(bad)} inconclusive/error, "
           f"{len(known_hits)} known findings, paths={sum(r.get('paths', 0) for r in results)} z3_queries={sum(r.get('queries', 0) for r in results)} "
